@@ -34,10 +34,12 @@ Definition claims_ok (c : claims) (now : Z) : bool :=
   match c_exp c with Some e => now <=? e | None => true end
   && match c_iat c with Some i => i <=? now | None => true end
   && match c_nbf c with Some n => n <=? now | None => true end.
-(* validateToken: some configured key yields Valid; provideKey hands the key material to jwt-go without looking
-   at the key's declared algorithm *)
+(* keyProvider.provideKey (after /repo commit dccedcf): a key that declares its algorithm is only offered to tokens
+   using that algorithm; an undeclared algorithm (0) leaves the choice to jwt-go's key-type check *)
+Definition key_alg_ok (k : jkey) (alg : Z) : bool := (k_alg k =? 0) || (k_alg k =? alg).
+(* validateToken: some configured key yields Valid *)
 Definition validate_token (malformed : bool) (alg : Z) (c : claims) (now : Z) (keys : list jkey) : bool :=
-  negb malformed && existsb (fun k => alg_compat alg (k_kty k) && k_sig_ok k && claims_ok c now) keys.
+  negb malformed && existsb (fun k => key_alg_ok k alg && alg_compat alg (k_kty k) && k_sig_ok k && claims_ok c now) keys.
 Definition jwt_accept (auth : bytes) (malformed : bool) (alg : Z) (c : claims) (now : Z) (keys : list jkey) : bool :=
   match get_token auth with
   | None => false
